@@ -48,9 +48,45 @@ def select_semantics(prog, res):
          res.fail(R, "match subject is the enumerated name", "R-SELECT|subject", f.loc(s),
                   "regex_match is applied to %s, not to the device name" % ir.render(subj)))
     # (b) icase
-    ctor = [(b, i, s, c) for b, i, s, c in calls if (c.get("fn") or "").startswith("std::basic_regex<char>::basic_regex")]
+    def from_name(c):
+        prm = [p for p in f.params if "string" in p.get("t", "") or p.get("n") == "name"]
+        ids = {p["id"] for p in prm}
+        return any(y.get("k") == "var" and y.get("id") in ids for a in c.get("args", []) for y in ir.walk(a))
+    ctor = [(b, i, s, c) for b, i, s, c in calls
+            if ((c.get("fn") or "").startswith("std::basic_regex<char>::basic_regex") or (c.get("fn") or "").startswith("std::basic_regex<char>::assign"))
+            and from_name(c)]
     if not ctor:
-        res.fail(R, "regex built with icase", "R-SELECT|no-regex", f.loc(), "select no longer builds a std::regex from the pattern")
+        res.fail(R, "regex built with icase", "R-SELECT|no-regex", f.loc(), "select no longer compiles a std::regex from the pattern")
+    # a remembered pattern (cache key) is stored only after the pattern it names
+    # was compiled: otherwise a pattern whose compilation throws is remembered
+    # as compiled, and the next identical request is answered with the
+    # previous, valid regex instead of an error
+    prm_ids = {p["id"] for p in f.params if "string" in p.get("t", "") or p.get("n") == "name"}
+    keys = set()
+    for b, i, s in f.all_stmts():
+        for c in ir.calls_in(s):
+            fn = c.get("fn") or ""
+            if ("operator!=" in fn or "operator==" in fn or fn.endswith("::compare")) and len(c.get("args", [])) >= 2:
+                a0, a1 = c["args"][0], c["args"][1]
+                for x, y in ((a0, a1), (a1, a0)):
+                    if any(z.get("k") == "var" and z.get("id") in prm_ids for z in ir.walk(x)):
+                        k_ = [z for z in ir.walk(y) if z.get("k") == "mem" and ir.strip(z.get("b") or {}).get("k") == "this"]
+                        if k_:
+                            keys.add(k_[0]["f"])
+    for key in sorted(keys):
+        stores = [(b.id, i) for b, i, s in f.all_stmts() for c in ir.calls_in(s)
+                  if (c.get("fn") or "").endswith("operator=") and c.get("args") and
+                  any(z.get("k") == "mem" and z.get("f") == key for z in ir.walk(c["args"][0]))]
+        stores += [(b.id, i) for b, i, s in f.all_stmts() for lv, op, rhs, w in ir.writes_of(s) if lv.get("k") == "mem" and lv.get("f") == key]
+        cpos = {(b.id, i) for b, i, s, c in ctor}
+        ok = bool(stores) and all(paths.all_paths_pass(f, "entry", {p_}, lambda q: any(id(c_) == id(c) for (_, _, _, c) in ctor for c_ in ir.calls_in(q)))[0] for p_ in stores)
+        inst = "the remembered pattern '%s' is updated only after it was compiled" % key
+        if ok:
+            res.oblige(R, inst, True, "", f.loc())
+        else:
+            res.fail(R, inst, "R-SELECT|cache-order|%s" % key, f.loc(),
+                     "select stores the requested pattern in '%s' before compiling it: if the pattern is malformed the compilation throws (error status), but the next "
+                     "identical request finds it remembered, skips the compilation and matches with the previously compiled regex - a malformed pattern selects a device" % key)
     for b, i, s, c in ctor:
         flags = [a for a in c.get("args", []) if isinstance(a, dict) and a.get("k") == "int"]
         nm = set()
